@@ -20,4 +20,12 @@ cd coq
 coq_makefile -f _CoqProject -o Makefile > /dev/null
 timeout 3000 make -j16 2>&1 | grep -v "^Closed under\|^     [=:]\|^COQC\|^COQDEP" || true
 test -f Props/C15.vo
+cd ..
+# extracted checkers (OCaml)
+NMFU_VERIF=1 PYTHONPATH=/repo:harness /venv/bin/python -c "
+import sys; sys.path.insert(0,'harness')
+import mach
+e = mach.ensure_machk()
+print('machk:', e or 'ok')
+sys.exit(1 if e else 0)"
 echo "setup done"
